@@ -402,3 +402,7 @@ for pid, (quick, thorough) in {
     "C13": ([("hooks", R_HOOKS, 150, 300)], [("hooks", R_HOOKS, 4000, 600)]),
 }.items():
     PROPS[pid]["random"] = {"quick": quick, "thorough": thorough}
+
+REFINE = C(Tasks=["t1", "t2"], InitMax=2, MaxObjs=3, Budget=4, NPost=1, AsyncPost=[1], AllowTake=True, AllowPanic=True)
+for pid in ("C01", "C02"):
+    PROPS[pid]["extra"] = {"thorough": ["counting"], "quick": [], "refine_consts": REFINE}
